@@ -36,6 +36,7 @@ class Rec(WM.WcMatch):
         self.at_hook = None       # callable(count) run inside every hook (used for the cross-thread schedule)
         self.skip_none = kw.get('skip_none', False)
         self.falsy = kw.get('falsy', False)      # hooks return falsy values that are not None: they must pass through
+        self.match_none = kw.get('match_none', False)   # on_match returns None: whatever on_match returns is a result
         if kw.get('kill_in_init'):
             self.kill()                          # on_init is a hook like any other: a kill() issued here holds until reset()
 
@@ -82,6 +83,8 @@ class Rec(WM.WcMatch):
 
     def on_match(self, base, name):
         self.tick('match', name)
+        if self.match_none:
+            return None
         return False if self.falsy else ('M', os.path.join(base, name))
 
 
@@ -166,6 +169,15 @@ def run_abort(desc):
         Un = wn.match()
         if Un != [u for u in U if u[0] != 'S'] or wn.get_skipped() != sk:
             fail('on_skip returning None changes more than dropping the skip values')
+        # on_match is not on_skip: its return value is a result even when it is None (only on_skip / on_error values of None are dropped)
+        wm_ = new(match_none=True)
+        Um = wm_.match()
+        want_m = [None if u[0] == 'M' else u for u in U]
+        out.evaluations += 1
+        if Um != want_m:
+            fail('on_match returning None: the None results are not in the output, in position', got=repr(Um[:6]), want=repr(want_m[:6]))
+        elif list(wm_.imatch()) != want_m:
+            fail('on_match returning None: imatch differs from match')
         # falsy values that are not None (0, '', False) are values like any other: unchanged and in position
         wf = new(falsy=True)
         Uf = wf.match()
